@@ -26,7 +26,7 @@ ASSUMPTIONS = ['tear-down stays outside the class of known finding K1 (an item r
 CLAUSES = {
     'nothing removed influences what remains': 'the Lean spec is a function of the current configuration only (removed_item_no_influence, evalAll_no_items); impl tied to it per step (L1/L2)',
     'removed items and fits can be reused with from-scratch results': 'correspondence: re-used items vs Lean spec; machine level: C01 incremental_eq_scratch',
-    'no service, register, subscription, override or cache retains any entry': 'register level: KeyedStorage (the dict-of-sets all registers are made of) keeps exactly the entries added and not yet removed and no key without a member, after every call history (C11Keyed.inv_run, mem_bucket_*, noEmpty_run, run_no_residue, mem_keys_iff_bucket, rmSet_key_clean), and the two maps of the projection register stay converse relations (C11Proj.conv_run, no_one_sided_entry), and direct ship-domain specs are parked under the fit / held under the ship and leave both stores empty when none is registered (C11Park.wf_run, park_no_residue, held_*); all tied to the real classes by per-call differentials; message-level model: after the canonical tear-down of every item the dynamic state is empty on the configuration, hence every declarative register content (specs, affectees, direct sets, deps) and every cache entry is empty, and the tear-down is a legal run when projectors let go first (C11World.teardown_all_registers_empty, registers_empty, teardown_all_legal, history_then_teardown); the concrete buckets of affection.py / projection.py, restriction / stat registers and subscriptions: impl-level emptiness walk (enumeration)',
+    'no service, register, subscription, override or cache retains any entry': 'register level: KeyedStorage (the dict-of-sets all registers are made of) keeps exactly the entries added and not yet removed and no key without a member, after every call history (C11Keyed.inv_run, run_refines, mem_bucket_*, noEmpty_run, run_no_residue, mem_keys_iff_bucket, rmSet_key_clean), and the two maps of the projection register stay converse relations (C11Proj.conv_run, proj_run_refines, no_one_sided_entry), and direct ship-domain specs are parked under the fit / held under the ship and leave both stores empty when none is registered (C11Park.wf_run, park_no_residue, held_*); all tied to the real classes by per-call differentials; message-level model: after the canonical tear-down of every item the dynamic state is empty on the configuration, hence every declarative register content (specs, affectees, direct sets, deps) and every cache entry is empty, and the tear-down is a legal run when projectors let go first (C11World.teardown_all_registers_empty, registers_empty, teardown_all_legal, history_then_teardown); the concrete buckets of affection.py / projection.py, restriction / stat registers and subscriptions: impl-level emptiness walk (enumeration)',
 }
 LEVEL_TEXT = ('Lean: values are functions of the current configuration (an item outside it cannot influence anything; '
               'an empty configuration has an empty value table). Residue freedom itself is checked on the real code by '
